@@ -43,11 +43,25 @@ def cut(root, rel, start_pat, end_pat, include_start=True, include_end=False, af
     return "\n".join(lines[a:b])
 
 
+def region(root, rel, from_pat, to_pat):
+    lines = open(os.path.join(root, rel)).read().split("\n")
+    b = [i for i, l in enumerate(lines) if re.search(to_pat, l)]
+    if len(b) != 1:
+        raise SliceError("region end %r matched %d times" % (to_pat, len(b)))
+    a = [i for i, l in enumerate(lines) if i < b[0] and re.search(from_pat, l)]
+    if not a:
+        raise SliceError("region start %r not found before the end anchor" % from_pat)
+    return "\n".join(lines[a[-1]:b[0] + 1])
+
+
 def generate(spec, root):
     name = spec.split()[0]
     if name not in SLICES:
         raise SliceError("unknown slice " + name)
     d = SLICES[name]
+    for (from_pat, to_pat, forbidden, why) in d.get("forbid", []):
+        if re.search(forbidden, region(root, d["file"], from_pat, to_pat)):
+            raise SliceError("code outside the slice mentions %s (%s): the slice would not be faithful" % (forbidden, why))
     body = cut(root, d["file"], d["start"], d["end"], d.get("include_start", True), d.get("include_end", False),
                d.get("after"))
     for pat, rep in d.get("subst", []):
@@ -63,16 +77,21 @@ def generate(spec, root):
 register(
     "ffi_search_tail",
     file="searchlite-ffi/src/lib.rs",
-    start=r"^\s*if out_json_buf\.is_null\(\) \|\| buf_cap == 0 \{",
+    after=r"^\s*let res = match reader\.search\(&req\) \{",
+    start=r"^\s*\};\s*$",
+    include_start=False,
     end=r"^\}",
     subst=[(r"let encoded = serde_json::to_string\(&res\)[^;]*;", "")],
+    # the statements between the argument guard and the search result must not look at
+    # the output buffer, otherwise guard+tail would not be the whole story
+    forbid=[(r"^\s*let h = &mut \*handle;", r"^\s*let res = match reader\.search\(&req\) \{",
+             r"out_json_buf|buf_cap", "between the handle dereference and the search call")],
     prefix=("/// SLICE (regenerated from the current source on every run): the statements of\n"
             "/// `searchlite_search` after the search itself, with the serialized response as a parameter.\n"
-            "#[allow(unused_unsafe)]\n"
+            "#[allow(unused_unsafe, unused_variables)]\n"
             "unsafe fn slice_search_tail(encoded: String, out_json_buf: *mut c_char, buf_cap: usize) -> usize {"),
     suffix="}",
 )
-
 
 # --------------------------------------------------------------------------
 # C21: fragment window of highlight_fragments (between the regex match and the
@@ -102,9 +121,11 @@ register(
     include_start=False,
     subst=[],
     prefix=("/// SLICE (regenerated from the current source on every run): the statements of\n"
-            "/// `searchlite_search` that run before the handle is dereferenced.\n"
-            "#[allow(unused_unsafe, unreachable_code)]\n"
-            "unsafe fn slice_search_guard(handle: *mut IndexHandle, query: *const c_char) -> usize {"),
+            "/// `searchlite_search` that run before the handle is dereferenced (usize::MAX = fell through).\n"
+            "#[allow(unused_unsafe, unreachable_code, unused_variables, clippy::too_many_arguments)]\n"
+            "unsafe fn slice_search_guard(\n"
+            "  handle: *mut IndexHandle,\n  query: *const c_char,\n  limit: usize,\n  cursor: *const c_char,\n"
+            "  aggs_json: *const c_char,\n  aggs_len: usize,\n  out_json_buf: *mut c_char,\n  buf_cap: usize,\n) -> usize {"),
     suffix="  usize::MAX\n}",
 )
 
@@ -177,5 +198,31 @@ register(
             "/// score cursor (stale-generation rejection).\n"
             "#[allow(unreachable_code)]\n"
             "fn slice_cursor_generation_check(cur: PaginationCursor, manifest_generation: u32) -> Result<CursorState> {"),
+    suffix="}",
+)
+
+
+# --------------------------------------------------------------------------
+# C07: the "how many should clauses are required" tail of the Bool arm of
+# QueryEvaluator::matches_node.  The whole arm cannot be run: query trees live
+# in Vecs (heap) and CBMC loses the enum payload constants there, so every
+# child is explored as every variant (incl. arbitrary filter trees).
+# --------------------------------------------------------------------------
+register(
+    "bool_should_default",
+    file="searchlite-core/src/api/reader.rs",
+    after=r"^\s*fn matches_node\(&self, node: &QueryMatcher, doc_id: DocId\) -> bool \{",
+    start=r"^\s*let min_should = minimum_should_match\.unwrap_or_else\(\|\| \{",
+    end=r"^\s*should_matches >= min_should",
+    include_end=True,
+    prefix=("/// SLICE (regenerated from the current source): the last statements of the Bool arm of\n"
+            "/// `QueryEvaluator::matches_node` (default for minimum_should_match and the final test).\n"
+            "fn slice_bool_should_default(\n"
+            "  minimum_should_match: &Option<usize>,\n"
+            "  must: &Vec<QueryMatcher>,\n"
+            "  should: &Vec<QueryMatcher>,\n"
+            "  filter: &Vec<Filter>,\n"
+            "  should_matches: usize,\n"
+            ") -> bool {"),
     suffix="}",
 )
